@@ -31,6 +31,16 @@ ExclusiveReservation(s, hv) ==
 ReservationHeld(s, hv, w) ==
   \A t \in LiveSent(s, w) \cap DOMAIN hv.lockedBy[w] : \A k \in hv.lockedBy[w][t] :
       k \in DOMAIN s.w[w].outs => s.w[w].outs[k].st \in {"Locked", "Spent"}
+\* a transaction is only ever completed from outputs that are reserved FOR IT: right after a successful
+\* finalize every input of the wallet's own is Locked by a live sent entry of that slate (a cancelled
+\* send, whose reservation was released, cannot come back to life when its reply arrives late)
+FinalizeOwnReservation(s2, w, sl) ==
+  sl \in DOMAIN s2.body =>
+    LET live == {t \in LiveSent(s2, w) : s2.w[w].txs[t].slate = sl} IN
+    \A k \in DOMAIN s2.w[w].outs :
+       OutId(s2.w[w].seed, k) \in s2.body[sl].ins =>
+          \E t \in live : /\ s2.w[w].outs[k].st \in {"Locked", "Spent"} /\ s2.w[w].outs[k].tx = s2.w[w].txs[t].id
+                          /\ s2.w[w].outs[k].acct = s2.w[w].txs[t].acct
 SharedInputs(s, hv) ==   \* witness for reports
   {<<w, a, b>> \in {<<w, a, b>> \in UNION {{w} \X LiveSent(s, w) \X LiveSent(s, w) : w \in Wallets(s)} : TRUE} :
       a # b /\ a \in DOMAIN hv.lockedBy[w] /\ b \in DOMAIN hv.lockedBy[w]
